@@ -1,0 +1,111 @@
+//! Verification hooks, compiled only with `--cfg crux_verif`.
+//!
+//! Everything in here is a no-op unless a [`Controller`] has been installed
+//! for the *calling thread* with [`set_thread_controller`]. Threads without a
+//! controller (i.e. every thread of a normal program) return immediately.
+//!
+//! The hooks never change behaviour on their own: schedule points and lock
+//! scopes only hand control to the installed controller, which may park the
+//! calling thread; `buggify` asks the controller whether an unusual but legal
+//! thing (a spurious wake-up) should happen at this site.
+
+use std::cell::RefCell;
+use std::sync::Arc;
+
+/// Implemented by a deterministic simulator which owns the schedule.
+pub trait Controller: Send + Sync {
+    /// A named schedule point was reached by the calling thread.
+    fn point(&self, name: &'static str);
+    /// The calling thread is about to acquire the lock identified by `(name, addr)`.
+    fn lock_enter(&self, name: &'static str, addr: usize);
+    /// The calling thread has released the lock identified by `(name, addr)`.
+    fn lock_exit(&self, name: &'static str, addr: usize);
+    /// Should the unusual-but-legal thing at site `name` happen now?
+    fn buggify(&self, name: &'static str) -> bool;
+}
+
+thread_local! {
+    static CONTROLLER: RefCell<Option<Arc<dyn Controller>>> = const { RefCell::new(None) };
+}
+
+/// Install (or remove, with `None`) the controller for the calling thread.
+pub fn set_thread_controller(controller: Option<Arc<dyn Controller>>) {
+    CONTROLLER.with(|c| *c.borrow_mut() = controller);
+}
+
+fn current() -> Option<Arc<dyn Controller>> {
+    CONTROLLER
+        .try_with(|c| c.try_borrow().ok().and_then(|c| c.clone()))
+        .ok()
+        .flatten()
+}
+
+/// A named schedule point.
+#[inline]
+pub fn point(name: &'static str) {
+    if let Some(c) = current() {
+        c.point(name);
+    }
+}
+
+/// Ask the controller whether to take the unusual branch at `name`.
+#[inline]
+pub fn buggify(name: &'static str) -> bool {
+    match current() {
+        Some(c) => c.buggify(name),
+        None => false,
+    }
+}
+
+/// Guard mirroring ownership of a real lock to the controller. Declare it
+/// *before* taking the real lock so that it is released *after* it.
+pub struct LockScope {
+    name: &'static str,
+    addr: usize,
+    controller: Option<Arc<dyn Controller>>,
+}
+
+/// Announce that the calling thread is about to take the lock `(name, addr)`.
+#[inline]
+pub fn lock_scope(name: &'static str, addr: usize) -> LockScope {
+    let controller = current();
+    if let Some(c) = &controller {
+        c.lock_enter(name, addr);
+    }
+    LockScope {
+        name,
+        addr,
+        controller,
+    }
+}
+
+impl Drop for LockScope {
+    fn drop(&mut self) {
+        if let Some(c) = &self.controller {
+            c.lock_exit(self.name, self.addr);
+        }
+    }
+}
+
+/// Read-only snapshot of a `Core`'s runtime queues.
+#[derive(Debug, Clone, Copy, PartialEq, Eq, Default)]
+pub struct CoreStats {
+    /// Occupied slots in the capability executor's task slab
+    pub executor_tasks: usize,
+    /// Task ids waiting in the executor's ready queue
+    pub ready_queue: usize,
+    /// Futures waiting in the executor's spawn queue
+    pub spawn_queue: usize,
+    /// Events emitted by tasks and not yet applied
+    pub pending_events: usize,
+    /// Effects requested and not yet handed to the shell
+    pub pending_effects: usize,
+}
+
+/// Kind of a bridge registry entry
+#[derive(Debug, Clone, Copy, PartialEq, Eq)]
+pub enum EntryKind {
+    Never,
+    Once,
+    Many,
+}
